@@ -18,6 +18,7 @@ def run(project, rep):
     rep.run(G.j_rules, project, rep)
     rep.run(G.cli_layer_rule, project, rep)
     rep.run(G.j_r9_dates_given_to_the_converter_as_typed, project, rep)
+    rep.run(G.j_r10_one_shot_iterators_consumed_once, project, rep)
     rep.run(G.acctinfo_layer_rule, project, rep, "J-R1")
     from .. import rules_dates as Z
     rep.rule("J-R4", "the dates given on the command line denote the instants requested: convert_datetime uses the DateTime converter, whose offset plumbing is decided by Z-R4 / Z-R5")
@@ -39,3 +40,5 @@ def run(project, rep):
     rep.run_only(("G-R3",), G.g_rules, project, rep, constructs=("writer[list]/reader[list]",))
     rep.rule("J-R8", "every account option of the command line is stored under the key the request composition reads: each argparse dest (the FIRST long option string names it) and each args[<k>] read is a DEFAULTS key (G-R2)")
     rep.run_only(("G-R2",), G.g_rules, project, rep)
+    rep.rule("J-R11", "the configured bank / broker ids and account lists are the USER's where the user set them: the user's file is read after, and so overrides, the bundled FI database (the loading clause of G-R1)")
+    rep.run_only(("G-R1",), G.g_rules, project, rep, constructs=("USERCFG.read:",))
